@@ -10,7 +10,7 @@ import subprocess
 import sys
 import tempfile
 
-V = "/verif"
+V = os.path.dirname(os.path.dirname(os.path.abspath(__file__)))
 PROPS = [f"C{i:02d}" for i in range(1, 21)]
 
 
